@@ -73,6 +73,67 @@ fn shrink(p: &Program, mut limit: usize) -> Program {
     cur
 }
 
+/// `<main>` of the real unoptimised assembly in the canonical spelling of the `cgen` driver: labels
+/// resolved to instruction indices, `call 1 prelude.println…` as `print <type>`, slots renamed in order of
+/// first appearance.
+fn real_main_code(src: &str) -> Result<String, String> {
+    abra_core::verif_asm::start_optimize_trace();
+    let r = std::panic::catch_unwind(std::panic::AssertUnwindSafe(|| abra_core::compile_bytecode("main.abra", provider(src, &[]))));
+    let tr = abra_core::verif_asm::take_optimize_trace_display();
+    match r {
+        Ok(Ok(_)) => {}
+        Ok(Err(_)) => return Err("rejected".into()),
+        Err(_) => return Err("crash".into()),
+    }
+    let Some(lines) = tr.first() else { return Err("no-trace".into()) };
+    // main = everything up to and including the first `stop`
+    let mut main: Vec<&str> = vec![];
+    for l in lines {
+        main.push(l.as_str());
+        if l.trim() == "stop" {
+            break;
+        }
+    }
+    let mut labels = std::collections::HashMap::new();
+    let mut n = 0usize;
+    for l in &main {
+        if let Some(name) = l.strip_suffix(':') {
+            labels.insert(name.to_string(), n);
+        } else {
+            n += 1;
+        }
+    }
+    let mut seen: Vec<String> = vec![];
+    let mut out: Vec<String> = vec![];
+    for l in &main {
+        if l.ends_with(':') {
+            continue;
+        }
+        let w: Vec<&str> = l.trim().split(' ').collect();
+        let t = match w[0] {
+            "jump" | "jump_if" | "jump_if_false" => match labels.get(w[1]) {
+                Some(k) => format!("{} {k}", w[0]),
+                None => format!("{} ?{}", w[0], w[1]),
+            },
+            "load_offset" | "store_offset" => {
+                let k = match seen.iter().position(|x| x == w[1]) {
+                    Some(k) => k,
+                    None => {
+                        seen.push(w[1].to_string());
+                        seen.len() - 1
+                    }
+                };
+                format!("{} {k}", w[0])
+            }
+            "call" if w.len() == 3 && w[1] == "1" && w[2].starts_with("prelude.println__%fn(int)->void") => "print int".to_string(),
+            "call" if w.len() == 3 && w[1] == "1" && w[2].starts_with("prelude.println__%fn(bool)->void") => "print bool".to_string(),
+            _ => l.trim().to_string(),
+        };
+        out.push(t);
+    }
+    Ok(out.join(";"))
+}
+
 fn d21_witnesses() -> Vec<(&'static str, &'static str, &'static str)> {
     vec![
         // (name, source, what the language reference gives)
@@ -196,6 +257,19 @@ fn main() {
             to_shrink.push(i);
         }
         ctx.case(j.req.clone(), real.answer.clone());
+    }
+    // ---- codegen tie (F0): the real unoptimised `<main>` equals `compileF0`, instruction for instruction
+    let f0: Vec<&Job> = jobs.iter().filter(|j| j.tier == 0).collect();
+    let codes = par_map(&f0, |j| real_main_code(&j.src));
+    for (j, c) in f0.iter().zip(codes) {
+        match c {
+            Ok(code) => {
+                ctx.count("cgen:compared");
+                ctx.count(&format!("cgen:len<{}", ((code.matches(';').count() / 50) + 1) * 50));
+                ctx.case(format!("cgen {} #{}", program_sx(&j.prog), j.req.rsplit('#').next().unwrap_or("")), code);
+            }
+            Err(e) => ctx.count(&format!("cgen:{e}")),
+        }
     }
     if rejected * 20 > jobs.len() {
         ctx.notes.push(format!("generator produced {rejected} programs the checker rejects (of {})", jobs.len()));
